@@ -76,6 +76,9 @@ def main(argv):
     if cmd == "selftest":
         from . import selftest
         return selftest.main(argv[1:])
+    if cmd == "controls":
+        from . import controls
+        return controls.main(argv[1:])
     print("unknown command", cmd)
     return 2
 
